@@ -47,7 +47,13 @@ def run(ctx):
         'that exponent is the one of the (1 - psi^lambda) factor in the '
         'friction-factor module of the same family (none for CTD, 7 for '
         'UCTD): equal pressure drop across subchannels is solved with the '
-        'friction law the pressure drop is then computed with']
+        'friction law the pressure drop is then computed with',
+        'R7 regime pairing: an argument handed to a laminar-regime parameter '
+        'of the transition iteration (Re_iL, Cf_iL) is built from '
+        'laminar-tagged constants only ([\'laminar\'], Re_bnds[0]), a '
+        'turbulent-regime one from turbulent-tagged constants only '
+        '([\'turbulent\'], Re_bnds[1]); the same holds for every '
+        'regime-keyed table read next to a regime-indexed bound']
     ctx.not_decided += ['pressure-gradient equality as numbers', 'positivity '
                         'and finiteness of friction factors / mixing '
                         'parameters']
@@ -60,6 +66,8 @@ def run(ctx):
     r5(ctx)
     r6(ctx, slots)
     ctx.min_instances('C12.R6', 4)
+    r7(ctx)
+    ctx.min_instances('C12.R7', 8)
     ctx.min_instances('C12.R1', 240)
     ctx.min_instances('C12.R2', 20)
     ctx.min_instances('C12.R3', 15)
@@ -872,3 +880,69 @@ def r6(ctx, slots):
     if seen < 2:
         raise AnalysisError('C12.R6: fewer than two flow-split modules call '
                             'the shared workers (%d)' % seen)
+
+
+# ---------------------------------------------------------------------------
+# R7: regime pairing
+
+def _regime_tags(e):
+    """Set of regime tags carried by the constants an expression reads."""
+    tags = set()
+    for n in ast.walk(e):
+        if isinstance(n, ast.Subscript):
+            c = const(n.slice)
+            if c == 'laminar':
+                tags.add('L')
+            elif c == 'turbulent':
+                tags.add('T')
+            elif isinstance(c, int) and isinstance(n.value, ast.Subscript) \
+                    and const(n.value.slice) == 'Re_bnds' and c in (0, 1):
+                tags.add('LT'[c])
+    return tags
+
+
+def r7(ctx):
+    repo = ctx.repo
+    it = repo.func('correlations.flowsplit_ctd', '_iterate')
+    regime = {}
+    for i, p_ in enumerate(it.params):
+        m_ = re.match(r'.*_i([LT])$', p_)
+        if m_:
+            regime[p_] = (i, m_.group(1))
+    if len(regime) < 4:
+        raise AnalysisError('_iterate: regime parameters %s' % sorted(regime))
+    n = 0
+    for fi in repo.all_funcs():
+        if not fi.mod.name.startswith('dassh.correlations'):
+            continue
+        for c in walk_no_nested(fi.node):
+            if not (isinstance(c, ast.Call) and
+                    (call_name(c) or '').split('.')[-1] == '_iterate'):
+                continue
+            for p_, (i, rg) in sorted(regime.items()):
+                arg = None
+                if i < len(c.args):
+                    arg = c.args[i]
+                for k in c.keywords:
+                    if k.arg == p_:
+                        arg = k.value
+                if arg is None:
+                    ctx.violation('C12.R7', fi, c, 'regime parameter %s of '
+                                  '_iterate is not supplied' % p_,
+                                  key='%s | %s missing' % (fi.full, p_))
+                    continue
+                e = U.expand_locals(fi.node, arg, before=c.lineno, depth=4)
+                tags = _regime_tags(e)
+                n += 1
+                ctx.require(
+                    tags == {rg}, 'C12.R7', fi, arg,
+                    'argument for the %s-regime parameter %s of the '
+                    'transition iteration reads constants tagged %s (%s): '
+                    'laminar and turbulent quantities are mixed'
+                    % ({'L': 'laminar', 'T': 'turbulent'}[rg], p_,
+                       sorted(tags) or 'with no regime',
+                       ' '.join(src(e).split())[:120]),
+                    key='%s | regime of %s' % (fi.full, p_))
+    if n < 8:
+        raise AnalysisError('C12.R7: fewer regime arguments than expected '
+                            '(%d)' % n)
